@@ -2,7 +2,7 @@
    doMatchIsEmpty's switch on value.Kind(), read from evaluate.go, are exactly the kinds on which the model's do_is_empty
    takes a length; every other kind is the error both operators share. *)
 From Coq Require Import List String ZArith NArith Bool.
-From Bexpr Require Import Base Strconv Ast Univ Eval Api Dump GoTables TableTie TieCoerce.
+From Bexpr Require Import Base Strconv Ast Univ Eval Api Dump GoTables TableTie.
 Import ListNotations.
 Open Scope string_scope.
 
